@@ -326,6 +326,20 @@ func c05GenSlice(t *rapid.T) c05SliceCase {
 		n = rapid.IntRange(13, 40).Draw(t, "n2")
 	}
 	var c c05SliceCase
+	if rapid.IntRange(0, 7).Draw(t, "many-large") == 0 {
+		// MANY values, all at the top of the 255-bit range: an accumulator that
+		// is not reduced after every step runs out of limb headroom only after
+		// dozens of such terms (and much later on the 29-bit backend)
+		n = rapid.IntRange(30, 200).Draw(t, "n3")
+		for i := 0; i < n; i++ {
+			b := bytes.Repeat([]byte{0xff}, 32)
+			b[31] = 0x7f
+			b[rapid.IntRange(0, 30).Draw(t, "pos")] -= byte(rapid.IntRange(0, 3).Draw(t, "dec"))
+			c.Vals = append(c.Vals, b)
+			c.Cls = append(c.Cls, "many-top")
+		}
+		return c
+	}
 	for i := 0; i < n; i++ {
 		b, cl := h.Scalar255(t, "v")
 		c.Vals = append(c.Vals, b)
